@@ -20,6 +20,8 @@ def variant(kind, rng, mode, axi):
     """mode: 'bc' (driven by prescribed boundary / conductor values), 'src' (driven by a source density, zero boundary
     values), 'cur' (magnetics: driven by a circuit current)"""
     p = gen.gen_rects(kind, rng, units="meters")
+    while mode == "mag" and not [r for r in p.regions if r["role"] == "material" and r["label"] is not None]:
+        p = gen.gen_rects(kind, rng, units="meters")      # a magnet filling the whole box under A = 0 produces no field
     p.ptype = "axi" if axi else "planar"
     p.smartmesh = rng.choice([0, 1])
     p.precision = 1e-10
@@ -53,6 +55,15 @@ def variant(kind, rng, mode, axi):
             b0.update(A_0=1e-3, A_1=2e-3, A_2=-1e-3)
         elif mode == "src":
             p.blockprops[p.labels[0]["block"]]["J_re"] = 1.5
+        elif mode == "mag":
+            # driven by a permanent magnet whose direction is a number or an expression of the position IN THE DECLARED UNIT
+            # (x, y, r, z, R, theta): the same numbers in another unit are the same directions on the scaled drawing
+            lab = p.labels[rng.choice([r["label"] for r in p.regions if r["role"] == "material" and r["label"] is not None])]
+            m = dict(p.blockprops[lab["block"]], name="magnet", H_c=5e5)
+            p.blockprops.append(m)
+            lab["block"] = len(p.blockprops) - 1
+            lab["magdir"] = 30.0
+            lab["magdirfctn"] = rng.choice(["45*x+10*y", "R*20-30", "theta+90", "", "z*15+x"])
         elif mode == "cur":
             p.circprops = [dict(name="coil", I_re=10.0, type=1)]
             p.labels[0]["circ"] = 0
@@ -97,6 +108,7 @@ LAWS = {
     ("h", "src"): dict(value=2, field=1, energy=None, terminal=None),
     ("m", "bc"): dict(value=0, field=-1, energy=1, terminal=None),
     ("m", "src"): dict(value=2, field=1, energy=5, terminal=None),
+    ("m", "mag"): dict(value=1, field=0, energy=3, terminal=None),
     ("m", "cur"): dict(value=0, field=-1, energy=1, terminal=1),
     ("m", "mut"): dict(value=0, field=-1, energy=1, terminal=1),
 }
@@ -121,7 +133,8 @@ def main(argv):
     rng = ck.rng
     stats = dict(variants=0, unit_runs=0, quantities_compared=0, worst_relative_deviation=0.0, by_physics={})
     combos = [("e", "bc", False), ("e", "src", True), ("h", "bc", True), ("h", "src", False), ("m", "bc", False), ("m", "src", False),
-              ("m", "cur", False), ("e", "bc", True), ("m", "bc", "harmonic"), ("m", "mut", True), ("m", "mut", False), ("m", "src", True)]
+              ("m", "cur", False), ("e", "bc", True), ("m", "bc", "harmonic"), ("m", "mut", True), ("m", "mut", False), ("m", "src", True),
+              ("m", "mag", False), ("m", "mag", True), ("m", "mag", False)]
     if ck.tier == "thorough":
         combos = combos * 4
     try:
